@@ -576,6 +576,108 @@ func runC43(c *Ctx) {
 		})
 		c.Check(nSkips >= 1 && skipWhy == "", "field-descent", "modeling.validateStructType#skips", fd.Pos(), "fields are left unvalidated only on their json tag",
 			skipWhy+": only a json:\"-\" tag may exempt a field from validation; a skip keyed on exportedness or embedding also exempts embedded structs whose exported fields encoding/json promotes and serialises, so types the checkpoint alters or drops are accepted")
+		// two further ways in which encoding/json silently drops fields of an accepted
+		// struct: a MarshalJSON that is only promoted from an embedded field (the
+		// other fields are never written), and two fields with one JSON name (both
+		// are dropped). The validator must look at the embedded fields before it
+		// trusts a marshaler, and must reject a repeated JSON name.
+		{
+			sf := p.SSAFunc(g)
+			readsAnonymous := func(fn *ssa.Function) bool {
+				if fn == nil {
+					return false
+				}
+				for _, b := range fn.Blocks {
+					for _, in := range b.Instrs {
+						if v, isV := in.(ssa.Value); isV {
+							if f := FieldOf(v); f != nil && f.Name() == "Anonymous" && f.Pkg() != nil && f.Pkg().Path() == "reflect" {
+								return true
+							}
+						}
+					}
+				}
+				return false
+			}
+			guardsPromotion := false
+			dupCheck := false
+			if sf != nil {
+				for _, b := range sf.Blocks {
+					for _, in := range b.Instrs {
+						switch x := in.(type) {
+						case ssa.CallInstruction:
+							if sc := x.Common().StaticCallee(); sc != nil && sc.Pkg == sf.Pkg && readsAnonymous(sc) {
+								// the result must decide an error return before the type is trusted
+								if v, isV := in.(ssa.Value); isV {
+									for _, ref := range *v.Referrers() {
+										if bo, isBO := ref.(*ssa.BinOp); isBO {
+											for _, r2 := range *bo.Referrers() {
+												if _, isIf := r2.(*ssa.If); isIf {
+													guardsPromotion = true
+												}
+											}
+										}
+									}
+								}
+							}
+						case *ssa.Lookup:
+							if mt, isMap := x.X.Type().Underlying().(*types.Map); isMap && x.CommaOk {
+								if bt, isB := mt.Key().Underlying().(*types.Basic); isB && bt.Kind() == types.String {
+									// the same map is also written, and a hit leads to an error return
+									for _, b2 := range sf.Blocks {
+										for _, in2 := range b2.Instrs {
+											if mu, isMU := in2.(*ssa.MapUpdate); isMU && mu.Map == x.X {
+												dupCheck = true
+											}
+										}
+									}
+								}
+							}
+						}
+					}
+				}
+			}
+			// the look at the embedded fields must sit on the branch that trusts a
+			// marshaler (the field loop further down also reads Anonymous)
+			if sf != nil {
+				var trusted *ssa.BasicBlock
+				for _, b := range sf.Blocks {
+					if ifi, isIf := b.Instrs[len(b.Instrs)-1].(*ssa.If); isIf {
+						if call, isCall := ifi.Cond.(*ssa.Call); isCall && call.Common().IsInvoke() && call.Common().Method.Name() == "Implements" && len(call.Common().Args) == 1 {
+							if ld, isLd := call.Common().Args[0].(*ssa.UnOp); isLd {
+								if gl, isG := ld.X.(*ssa.Global); isG && gl.Name() == "jsonMarshalerType" && trusted == nil {
+									trusted = b.Succs[0]
+								}
+							}
+						}
+					}
+				}
+				ok := false
+				if trusted != nil {
+					for _, b := range sf.Blocks {
+						if !trusted.Dominates(b) {
+							continue
+						}
+						for _, in := range b.Instrs {
+							if v, isV := in.(ssa.Value); isV {
+								if f := FieldOf(v); f != nil && f.Name() == "Anonymous" {
+									ok = true
+								}
+							}
+							if call, isCall := in.(ssa.CallInstruction); isCall {
+								if sc := call.Common().StaticCallee(); sc != nil && sc.Pkg == sf.Pkg && readsAnonymous(sc) {
+									ok = true
+								}
+							}
+						}
+					}
+				}
+				guardsPromotion = guardsPromotion && ok
+			}
+			c.Check(guardsPromotion, "field-rejection", "modeling.validateStructType#promoted-marshaler", fd.Pos(), "a MarshalJSON promoted from an embedded field is not trusted",
+				"validateStructType trusts any struct whose method set has MarshalJSON/UnmarshalJSON without looking at its embedded fields: a struct that embeds a custom-JSON type next to fields of its own is accepted, although encoding/json then serialises only the embedded value and silently drops the other fields")
+			c.Check(dupCheck, "field-rejection", "modeling.validateStructType#duplicate-json-name", fd.Pos(), "two fields with one JSON name are rejected",
+				"validateStructType does not compare the JSON names of a struct's fields: two exported fields with the same JSON name are accepted, although encoding/json drops both from the checkpoint")
+		}
 		c.Check(rejectsUnexported, "field-rejection", "modeling.validateStructType#unexported-field", fd.Pos(), "an unexported field of a struct without custom JSON is rejected",
 			"a struct that mixes exported fields with unexported ones (and has no custom JSON) is accepted, although encoding/json silently drops the unexported fields; only the all-unexported case (serialises as {}) is rejected")
 		c.Check(rejectsDash, "field-rejection", "modeling.validateStructType#json-dash-field", fd.Pos(), "a field tagged json:\"-\" is rejected",
